@@ -34,6 +34,7 @@ impl Cell {
 //@use cell.fns Cell::to_bitstr assumed
 //@use cell.fns Cell::to_xint assumed
 //@use cell.fns Cell::to_real assumed
+//@use cell.fns Cell::to_xstr assumed
 //@use cell.fns Cell::vec assumed
 //@use cell.fns Cell::with_tags assumed
 //@use cell.fns Cell::insert_tag assumed
@@ -229,7 +230,8 @@ impl CellRef {
 impl Bitstr {
     // byte export as a Cow (verified as to_bytes / to_bytes_with_padding in unit bitstr; here only when it exists)
     #[verifier::external_body] pub fn bytestr<'a>(&'a self) -> (r: Option<std::borrow::Cow<'a, [u8]>>)
-        ensures r is Some <==> self.view().len() % 8 == 0 { unimplemented!() }
+        ensures r is Some <==> self.view().len() % 8 == 0,
+            r is Some ==> cow_bytes(r->0).len() * 8 == self.view().len() && bits_of(cow_bytes(r->0), 0, 8 * cow_bytes(r->0).len() as int) == self.view() { unimplemented!() }
 }
 // Rext: crate::file::write_to_stdout (I/O): some result, the interpreter state is not an argument
 #[verifier::external_body] fn verif_write_stdout(buf: &std::borrow::Cow<'_, [u8]>) -> Xresult { unimplemented!() }
@@ -272,6 +274,149 @@ proof fn lemma_group_zero(s: Seq<u8>, pos: int, g: (u8, u32))
 }
 //@use cursor.fns ::nulbytestr_read
 //@use cursor.fns ::nulbytestr_word
+
+// ================= text encodings (C18): base32 / base32hex / base64 / zero85 words =================
+// The three codec crates are dependencies: stand-ins with ASSUMED contracts.  The round-trip law
+// decode(encode(b)) == b of each crate is ASSUMED (axiom_*_roundtrip); what is CHECKED is everything xeh owns: both
+// directions of a pair use the same codec and alphabet, the encoder takes what `>bitstr` takes and encodes its bytes,
+// an undecodable text gives nil, never an error or another value.
+pub uninterp spec fn cow_bytes(c: std::borrow::Cow<'_, [u8]>) -> Seq<u8>;
+pub mod base32 {
+    use super::*;
+    pub enum Alphabet { RFC4648 { padding: bool }, Crockford }
+    pub uninterp spec fn enc(a: Alphabet, b: Seq<u8>) -> Seq<char>;
+    pub uninterp spec fn dec(a: Alphabet, t: Seq<char>) -> Option<Seq<u8>>;
+    #[verifier::external_body] pub fn encode(a: Alphabet, data: &std::borrow::Cow<'_, [u8]>) -> (r: String)
+        ensures r@ == enc(a, cow_bytes(*data)) { unimplemented!() }
+    #[verifier::external_body] pub fn decode(a: Alphabet, data: &Xstr) -> (r: Option<Vec<u8>>)
+        ensures (r is Some) == (dec(a, xstr_chars(*data)) is Some), r is Some ==> r->0@ == dec(a, xstr_chars(*data))->0 && r->0@.len() * 8 <= usize::MAX { unimplemented!() }
+    #[verifier::external_body] pub proof fn axiom_roundtrip(a: Alphabet, b: Seq<u8>) ensures dec(a, enc(a, b)) == Some(b) {}
+}
+pub mod base64 {
+    use super::*;
+    pub trait Engine {}
+    pub uninterp spec fn enc(b: Seq<u8>) -> Seq<char>;
+    pub uninterp spec fn dec(t: Seq<char>) -> Option<Seq<u8>>;
+    #[verifier::external_body] pub proof fn axiom_roundtrip(b: Seq<u8>) ensures dec(enc(b)) == Some(b) {}
+    pub mod engine { pub mod general_purpose {
+        use super::super::super::*;
+        pub struct GeneralPurpose { pub _p: u8 }
+        pub const STANDARD: GeneralPurpose = GeneralPurpose { _p: 0 };
+        impl GeneralPurpose {
+            #[verifier::external_body] pub fn encode(&self, data: &std::borrow::Cow<'_, [u8]>) -> (r: String)
+                ensures r@ == super::super::enc(cow_bytes(*data)) { unimplemented!() }
+            #[verifier::external_body] pub fn decode(&self, data: &Xstr) -> (r: Result<Vec<u8>, ()>)
+                ensures (r is Ok) == (super::super::dec(xstr_chars(*data)) is Some), r is Ok ==> r->Ok_0@ == super::super::dec(xstr_chars(*data))->0 && r->Ok_0@.len() * 8 <= usize::MAX { unimplemented!() }
+        }
+    } }
+}
+pub mod z85 {
+    use super::*;
+    pub uninterp spec fn enc(b: Seq<u8>) -> Seq<char>;
+    pub uninterp spec fn dec(t: Seq<char>) -> Option<Seq<u8>>;
+    #[verifier::external_body] pub proof fn axiom_roundtrip(b: Seq<u8>) ensures dec(enc(b)) == Some(b) {}
+    #[verifier::external_body] pub fn encode(data: &std::borrow::Cow<'_, [u8]>) -> (r: String)
+        ensures r@ == enc(cow_bytes(*data)) { unimplemented!() }
+    #[verifier::external_body] pub fn decode(data: &Xstr) -> (r: Result<Vec<u8>, ()>)
+        ensures (r is Ok) == (dec(xstr_chars(*data)) is Some), r is Ok ==> r->Ok_0@ == dec(xstr_chars(*data))->0 && r->Ok_0@.len() * 8 <= usize::MAX { unimplemented!() }
+}
+impl vstd::std_specs::convert::FromSpecImpl<Xstr> for Cell {
+    open spec fn obeys_from_spec() -> bool { true }
+    open spec fn from_spec(x: Xstr) -> Cell { Cell::Str(x) }
+}
+impl From<Xstr> for Cell {
+//@use cell.fns "impl From<Xstr> for Cell"::from
+}
+//@use encode.fns ::base32_encode2
+//@use encode.fns ::base32_encode
+//@use encode.fns ::base32hex_encode
+//@use encode.fns ::base32_decode2
+//@use encode.fns ::base32_decode
+//@use encode.fns ::base32hex_decode
+//@use encode.fns ::base64_encode
+//@use encode.fns ::base64_decode2
+//@use encode.fns ::base64_decode
+//@use encode.fns ::zero85_encode
+//@use encode.fns ::zero85_decode_res
+//@use encode.fns ::zero85_decode
+
+// C18, the four pairs: encode then decode gives back the bytes (lemmas over the word contracts + the ASSUMED crate law)
+fn lemma_base32_pair(xs: &mut State)
+    requires old(xs).inv(), un_arg(old(xs)) ==> item_size(old(xs).data_stack@.last()) <= 0x1000_0000_0000
+{
+    let ghost v = xs.data_stack@.last();
+    let ghost a0: State = *xs;
+    let r1 = base32_encode(xs);
+    if r1.is_ok() {
+        proof {
+            let n = choose|n: nat| rev_w(&a0, &*xs, n);
+            assert(xs.bases() == a0.bases());
+            assert(un_arg(&*xs));
+            let b = choose|b: Seq<u8>| #[trigger] bits_of(b, 0, 8 * b.len() as int) == concat_bits(v)->0
+                && xstr_chars(xs.data_stack@.last()->Str_0) == base32::enc(base32::Alphabet::RFC4648 { padding: true }, b);
+            base32::axiom_roundtrip(base32::Alphabet::RFC4648 { padding: true }, b);
+        }
+        let r2 = base32_decode(xs);
+        assert(r2 is Ok ==> xs.data_stack@.last() is Bitstr && xs.data_stack@.last()->Bitstr_0.view() == concat_bits(v)->0);
+    }
+}
+fn lemma_base32hex_pair(xs: &mut State)
+    requires old(xs).inv(), un_arg(old(xs)) ==> item_size(old(xs).data_stack@.last()) <= 0x1000_0000_0000
+{
+    let ghost v = xs.data_stack@.last();
+    let ghost a0: State = *xs;
+    let r1 = base32hex_encode(xs);
+    if r1.is_ok() {
+        proof {
+            let n = choose|n: nat| rev_w(&a0, &*xs, n);
+            assert(xs.bases() == a0.bases());
+            assert(un_arg(&*xs));
+            let b = choose|b: Seq<u8>| #[trigger] bits_of(b, 0, 8 * b.len() as int) == concat_bits(v)->0
+                && xstr_chars(xs.data_stack@.last()->Str_0) == base32::enc(base32::Alphabet::Crockford, b);
+            base32::axiom_roundtrip(base32::Alphabet::Crockford, b);
+        }
+        let r2 = base32hex_decode(xs);
+        assert(r2 is Ok ==> xs.data_stack@.last() is Bitstr && xs.data_stack@.last()->Bitstr_0.view() == concat_bits(v)->0);
+    }
+}
+fn lemma_base64_pair(xs: &mut State)
+    requires old(xs).inv(), un_arg(old(xs)) ==> item_size(old(xs).data_stack@.last()) <= 0x1000_0000_0000
+{
+    let ghost v = xs.data_stack@.last();
+    let ghost a0: State = *xs;
+    let r1 = base64_encode(xs);
+    if r1.is_ok() {
+        proof {
+            let n = choose|n: nat| rev_w(&a0, &*xs, n);
+            assert(xs.bases() == a0.bases());
+            assert(un_arg(&*xs));
+            let b = choose|b: Seq<u8>| #[trigger] bits_of(b, 0, 8 * b.len() as int) == concat_bits(v)->0
+                && xstr_chars(xs.data_stack@.last()->Str_0) == base64::enc(b);
+            base64::axiom_roundtrip(b);
+        }
+        let r2 = base64_decode(xs);
+        assert(r2 is Ok ==> xs.data_stack@.last() is Bitstr && xs.data_stack@.last()->Bitstr_0.view() == concat_bits(v)->0);
+    }
+}
+fn lemma_zero85_pair(xs: &mut State)
+    requires old(xs).inv(), un_arg(old(xs)) ==> item_size(old(xs).data_stack@.last()) <= 0x1000_0000_0000
+{
+    let ghost v = xs.data_stack@.last();
+    let ghost a0: State = *xs;
+    let r1 = zero85_encode(xs);
+    if r1.is_ok() {
+        proof {
+            let n = choose|n: nat| rev_w(&a0, &*xs, n);
+            assert(xs.bases() == a0.bases());
+            assert(un_arg(&*xs));
+            let b = choose|b: Seq<u8>| #[trigger] bits_of(b, 0, 8 * b.len() as int) == concat_bits(v)->0
+                && xstr_chars(xs.data_stack@.last()->Str_0) == z85::enc(b);
+            z85::axiom_roundtrip(b);
+        }
+        let r2 = zero85_decode(xs);
+        assert(r2 is Ok ==> xs.data_stack@.last() is Bitstr && xs.data_stack@.last()->Bitstr_0.view() == concat_bits(v)->0);
+    }
+}
 
 // the data words of the word table (Rword)
 //@use words.fns ::load#w_u8
